@@ -67,7 +67,8 @@ def make_hist(shape: str, member_opts: Sequence[Any], inv_opts: Sequence[Sequenc
             o2 = second[k - 1]
             members.append({"name": "g", "kind": "fn", "decos": stack(b, o2[0], o2[1], o2[2], (), snap_name=10 + k)})
         invs = [{"c": b.new("inv", on)} for on in inv_opts[k - 1]]
-        cls.append({"bases": list(bases), "mro": mros[k - 1], "dbc": dbc, "members": members, "invs": invs})
+        cls.append({"bases": list(bases), "mro": mros[k - 1], "dbc": dbc, "members": members, "invs": invs,
+                    "mod": "app.models"})
     return {"hid": 0, "tag": tag or shape, "names": ["f", "g"], "con": b.con, "cls": cls}
 
 
@@ -120,7 +121,7 @@ def fam_stacks(tier: str, rng: random.Random) -> Iterator[dict]:
             if not b.con:
                 b.new("pre")
             cls = [{"bases": [], "mro": [1], "dbc": True, "members": [{"name": "f", "kind": "fn", "decos": decos}],
-                    "invs": []}]
+                    "invs": [], "mod": "app.models"}]
             yield {"hid": 0, "tag": "stack", "names": ["f", "g"], "con": b.con, "cls": cls}
 
 
@@ -141,3 +142,45 @@ def fam_shadow(tier: str, rng: random.Random) -> Iterator[dict]:
                 for m1 in ((1, 0, 0), (0, 0, 0), (0, 1, 0)):
                     for kind in ("fn", "prop"):
                         yield make_hist("diamond", [m1, None, m3, None], [k1inv, k2inv, [], []], kind=kind, tag="shadow")
+
+
+SMALL_OPTS = [None, (0, 0, 0), (1, 0, 0), (0, 1, 0)]
+
+
+def fam_hier_small(tier: str, rng: random.Random) -> Iterator[dict]:
+    """Every placement of {absent, bare, one precondition, one postcondition} on every class of every shape
+    (exhaustive), with invariants on the root only or nowhere."""
+    for shape, bases_list in SHAPES.items():
+        n = len(bases_list)
+        for mopts in itertools.product(SMALL_OPTS, repeat=n):
+            for rootinv in ([], ["CALL"]):
+                if tier == "quick" and n == 4 and rootinv and rng.random() < 0.5:
+                    continue
+                yield make_hist(shape, mopts, [rootinv] + [[]] * (n - 1), kind="fn", tag="small-" + shape)
+
+
+def fam_foreign_hier(tier: str, rng: random.Random) -> Iterator[dict]:
+    """Overrides that carry foreign functools.wraps decorators above / between / below their contract decorators,
+    in hierarchies (the merged contracts must land on the one real checker)."""
+    for shape in ("chain2", "chain3", "twobases"):
+        n = len(SHAPES[shape])
+        for mopts in itertools.product([(1, 0, 0), (0, 1, 0), (1, 1, 0)], repeat=n):
+            for top in range(n):
+                for pos in ((99,), (0,), (1,), (0, 99)):
+                    foreign = [()] * n
+                    foreign[top] = pos
+                    yield make_hist(shape, mopts, [[]] * n, kind="fn", foreign=foreign, tag="foreign-" + shape)
+
+
+def fam_modules(tier: str, rng: random.Random) -> Iterator[dict]:
+    """C18: classes created through the metaclass in modules with assorted names are announced exactly once."""
+    mods = ["app.models", "icontract_hypothesis_strategies", "icontractual", "icontract", "icontract.plugins.x",
+            "x.icontract._metaclass", "_metaclass", "tests.icontract._metaclass2", "icontract._metaclass"]
+    for shape in ("single", "chain2", "siblings"):
+        n = len(SHAPES[shape])
+        for combo in itertools.product(mods, repeat=n) if n < 3 else [tuple(rng.choice(mods) for _ in range(n)) for _ in range(60)]:
+            for dbc in (True, False) if n == 1 else (True,):
+                h = make_hist(shape, [(1, 0, 0)] * n, [["CALL"]] + [[]] * (n - 1), dbc=dbc, tag="modules")
+                for st, m in zip(h["cls"], combo):
+                    st["mod"] = m
+                yield h
